@@ -102,7 +102,7 @@ TNew ==
   /\ verdict' = IF Line.id \in DOMAIN objs THEN "NC:object-id-reused" ELSE "ok"
   /\ objs' = Put(objs, Line.id,
                  [kind |-> Line.kind, t |-> Line.d, start |-> now, startU |-> uNow,
-                  st |-> "running", creq |-> FALSE, rec |-> NoRec])
+                  st |-> "running", creq |-> FALSE, rec |-> NoRec, doneU |-> 0])
   /\ UNCHANGED <<thr, ms, now, uNow, susp, cnt, timers, nonconf>>
 
 UE(o) == uNow - o.startU
@@ -196,10 +196,35 @@ TObs ==
                      ELSE V[CHOOSE i \in bad : \A j \in bad : i <= j]
        /\ objs' = [id \in DOMAIN objs |->
                      IF objs[id].st = "running" /\ \E i \in 1 .. Len(rs) : rs[i].id = id /\ rs[i].done
-                     THEN [objs[id] EXCEPT !.st = "done",
+                     THEN [objs[id] EXCEPT !.st = "done", !.doneU = UE(objs[id]),
                                            !.rec = rs[CHOOSE i \in 1 .. Len(rs) : rs[i].id = id /\ rs[i].done]]
                      ELSE objs[id]]
   /\ UNCHANGED <<thr, ms, now, uNow, susp, cnt, timers, nonconf>>
+
+-----------------------------------------------------------------------------
+(* Executor level (harness/suspclock/exec_test.go): the object is the      *)
+(* context the real localBuildExecutor gave to the command; its timeout t  *)
+(* is Action.timeout as the harness requested it.  "xend": Execute has     *)
+(* returned (logged after the observation that follows it).  The action is *)
+(* reported as DEADLINE_EXCEEDED iff the clock ended the command, and the  *)
+(* reported virtual execution duration is the unsuspended time the command *)
+(* ran.                                                                    *)
+
+XEndVerdict(o, e) ==
+  IF o.st # "done" THEN "NC:execution-ended-but-command-context-still-runs"
+  ELSE IF ~o.creq /\ e.code # "DeadlineExceeded"
+    THEN "C11:timeout-not-reported-as-deadline-exceeded"
+  ELSE IF o.creq /\ o.rec.err = "canceled" /\ e.code = "DeadlineExceeded"
+    THEN "C11:finished-in-budget-but-deadline-exceeded"
+  ELSE IF ~e.hasvdur \/ ~SC!ReportedOK(e.vdur, o.doneU) \/ e.vrem # 0
+    THEN "C11:reported-duration-is-not-unsuspended-time"
+  ELSE "ok"
+
+TXEnd ==
+  /\ IsEvent("xend")
+  /\ verdict' = IF Line.id \in DOMAIN objs THEN XEndVerdict(objs[Line.id], Line)
+                ELSE "NC:execution-ended-without-running-the-command"
+  /\ UNCHANGED <<thr, ms, now, uNow, susp, cnt, objs, timers, nonconf>>
 
 -----------------------------------------------------------------------------
 (* Storage operations through SuspendingBlobAccess /                       *)
@@ -249,7 +274,7 @@ TEnd ==
 
 TNext == \/ TReset \/ TTick \/ TSuspend \/ TResume \/ TNew \/ TArm \/ TFire
          \/ TStop \/ TCancel \/ TObs \/ TOpBegin \/ TOpBase \/ TOpRelease
-         \/ TOpEnd \/ TPanic \/ TLeak \/ TEnd
+         \/ TOpEnd \/ TPanic \/ TLeak \/ TEnd \/ TXEnd
 
 TraceSpec == TInit /\ [][TNext]_tvars
 
